@@ -281,7 +281,9 @@ static void c03_file(const rfile_t* f0, uint64_t key) {
     if (!mc_next()) return;
     /* stages that leave the hybrid forms at their default cycle through all seven forms (RLE runs only, bit-packed groups only, mixed, short runs, zero-length runs, padded groups, single groups) by case key */
     rfile_t fv = *f0; if (fv.level_form == 0 && fv.index_form == 0) { fv.level_form = (int)(key % REF_H_NFORMS); fv.index_form = (int)((key / REF_H_NFORMS) % REF_H_NFORMS); }
-    fv.absent_levels_bit_packed = (key / 49) & 1; for (int c = 0; c < fv.ncols; c++) fv.logical[c] = (int)((key / 98 + (uint64_t)c) % 7);      /* also by key: the parquet-mr convention for absent levels, logical-type annotations */
+    fv.absent_levels_bit_packed = (key / 49) & 1; for (int c = 0; c < fv.ncols; c++) fv.logical[c] = (int)((key / 98 + (uint64_t)c) % 7);
+    { bool dict = false; for (int c = 0; c < fv.ncols; c++) if (fv.enc[c] != ENC_PLAIN) dict = true;      /* dictionary chunks: the three layouts of the two offsets that writers produce (both set; no dictionary_page_offset and data_page_offset at the dictionary page; both set with data_page_offset at the dictionary page) */
+      if (dict && fv.dict_offset_present && !fv.data_offset_at_dict) { int lay = (int)((key / 686) % 3); if (lay == 1) { fv.dict_offset_present = false; fv.data_offset_at_dict = true; } else if (lay == 2) fv.data_offset_at_dict = true; } }      /* also by key: the parquet-mr convention for absent levels, logical-type annotations */
     const rfile_t* f = &fv;
     const char* fd = rf_desc(f); mc_desc("c03:%s", fd); mc_case_key(key); mc_nontrivial();
     ref_buf img; ref_buf_init(&img); static ref_coldata cols[4 * RF_MAXC]; int np = 0;
